@@ -928,8 +928,16 @@ where
                     continue;
                 }
                 TokenKind::Comma if in_params => {
-                    // Comma separates params
+                    // Comma separates params; the comments attached to it stay with the parameter before it
                     if has_param_content {
+                        if let Some(idx) = find_preparsed_index(*token_index, ctx.preparsed) {
+                            let leading = ctx.preparsed.get_leading_trivia(idx, ctx.tokens);
+                            let trailing = ctx.preparsed.get_trailing_trivia(idx, ctx.tokens);
+                            for trivia in leading.into_iter().chain(trailing) {
+                                current_param =
+                                    current_param.append(emit_trivia(trivia, ctx.source, allocator));
+                            }
+                        }
                         params_docs.push(current_param.clone());
                         current_param = allocator.nil();
                         has_param_content = false;
@@ -1925,6 +1933,8 @@ where
     A: Clone,
 {
     let mut items = Vec::new();
+    // The separating commas as written, with the comments attached to them
+    let mut commas = Vec::new();
     let mut found_open = false;
     let mut open_doc = allocator.nil();
     let mut close_doc = allocator.nil();
@@ -1936,15 +1946,16 @@ where
             let token = &ctx.tokens[*token_index];
             match token.kind {
                 TokenKind::BlockBegin => {
-                    open_doc = allocator.text("{");
+                    open_doc = emit_token_with_trivia(*token_index, ctx, allocator);
                     found_open = true;
                     continue;
                 }
                 TokenKind::BlockEnd => {
-                    close_doc = allocator.text("}");
+                    close_doc = emit_token_with_trivia(*token_index, ctx, allocator);
                     continue;
                 }
                 TokenKind::Comma => {
+                    commas.push(emit_token_with_trivia(*token_index, ctx, allocator));
                     continue;
                 }
                 TokenKind::Ident | TokenKind::IdentFunction | TokenKind::IdentVariable => {
@@ -1965,7 +1976,17 @@ where
     if items.is_empty() {
         open_doc.append(close_doc)
     } else {
-        let items_doc = allocator.intersperse(items, allocator.text(", "));
+        let n_items = items.len();
+        let mut commas = commas.into_iter();
+        let mut items_doc = allocator.nil();
+        for (i, item) in items.into_iter().enumerate() {
+            items_doc = items_doc.append(item);
+            if i + 1 < n_items {
+                items_doc = items_doc
+                    .append(commas.next().unwrap_or_else(|| allocator.text(",")))
+                    .append(allocator.text(" "));
+            }
+        }
         open_doc.append(items_doc).append(close_doc)
     }
 }
